@@ -77,16 +77,16 @@ def repo_fatal(stderr):
     return None
 
 
-def store_histories(run, prop, v, n, parts=3):
+def store_histories(run, prop, v, n, parts=3, only="store"):
     """concurrent histories (writes, removals, lookups, dump-and-load snapshots) on the two topic-keyed stores, under the race detector,
     judged by Lin.tla; shared with C19.  -> dict for the evidence"""
     conc = run.gobuild("conc", race=True)
     env = dict(os.environ, GORACE="halt_on_error=0 history_size=3")
-    hpath = os.path.join(run.scratch, "storehist.ndjson")
+    hpath = os.path.join(run.scratch, only + "hist.ndjson")
     jobs = []
     for i in range(parts):
         e = dict(env, VERIF_SEED=str(run.seed * 100 + 50 + i))
-        jobs.append(subprocess.Popen([conc, "-only", "store", "-out", hpath + ".%d" % i, "-n", str(max(1, n // parts)), "-threads", str(4 + 2 * i), "-ops", str(6 + i)],
+        jobs.append(subprocess.Popen([conc, "-only", only, "-out", hpath + ".%d" % i, "-n", str(max(1, n // parts)), "-threads", str(4 + 2 * i), "-ops", str(6 + i)],
                                      stdout=subprocess.PIPE, stderr=subprocess.PIPE, text=True, env=e, cwd=run.scratch))
     nhist, rs = 0, []
     with open(hpath, "w") as out:
@@ -110,18 +110,21 @@ def store_histories(run, prop, v, n, parts=3):
     for r in rs:
         if r["repo"]:
             fns = sorted({t[0].split("/")[-1] for t in r["top"]})
-            v.add("data-race:" + "+".join(fns), "data race in repository code: %s" % r["text"][:1500], {"kind": "race", "report": r["text"]})
+            v.add("data-race:" + "+".join(fns), "data race in repository code: %s" % r["text"][:1500], {"kind": "datarace", "report": r["text"]})
     validated, rejected, tstates = vlib.validate_scenarios(run, "Lin", "Lin.cfg", hpath, marker='"kind":', chunk_events=60, timeout=1800, max_rejections=3)
     for rj in rejected:
         h = rj["scenario"][0]
         v.add("not-linearizable:%s" % h.get("kind"),
-              "concurrent history on the %s store (writes, removals, lookups, dump + load into a fresh store) has no linearization that is a behaviour "
-              "of a map: %s" % (h.get("which"), json.dumps(sorted(h["ops"], key=lambda o: o["call"]))[:2500]), {"kind": "history", "history": h})
+              "concurrent history on %s has no linearization that is a behaviour of its sequential specification: %s"
+              % ("the %s store (writes, removals, lookups, dump + load into a fresh store)" % h.get("which") if only == "store" else "the identifier pool",
+                 json.dumps(sorted(h["ops"], key=lambda o: o["call"]))[:2500]), {"kind": "history", "history": h})
     nsnap = sum(ln.count('"f":"snapshot"') for ln in open(hpath))
-    run.log("stores under concurrent use: %d histories (%d snapshots), %d rejected, %d race reports in repository code" % (nhist, nsnap, len(rejected), sum(1 for r in rs if r["repo"])))
+    run.log(only + " under concurrent use: %d histories (%d snapshots), %d rejected, %d race reports in repository code" % (nhist, nsnap, len(rejected), sum(1 for r in rs if r["repo"])))
     return {"histories": nhist, "snapshots": nsnap, "validated": validated, "rejections": len(rejected), "race_reports_in_repository_code": sum(1 for r in rs if r["repo"]),
             "trace_spec_states": tstates,
-            "rule": "4-8 goroutines x 6-8 operations (write with values of varying length, remove, exact lookup, snapshot = Dump + Load into a fresh store + "
+            "rule": "4-8 goroutines x 6-9 Get / Put on one small pool under the Go race detector; Lin.tla: linearizable as IdPool.tla (distinct identifiers, "
+                    "in range, free again after Put, no panic)" if only == "pool" else
+                    "4-8 goroutines x 6-8 operations (write with values of varying length, remove, exact lookup, snapshot = Dump + Load into a fresh store + "
                     "lookup of every key) on topics.Store and subscriptions.Tree over keys a, a/b, a/b/c, b, under the Go race detector; Lin.tla: the history "
                     "is linearizable as a map, a snapshot equals the map at one moment between its call and its return"}
 
@@ -196,7 +199,7 @@ def check(run):
     for r in allraces:
         if r["repo"]:
             fns = sorted({t[0].split("/")[-1] for t in r["top"]})
-            v.add("data-race:" + "+".join(fns), "data race in repository code: %s" % r["text"][:1500], {"kind": "race", "report": r["text"]})
+            v.add("data-race:" + "+".join(fns), "data race in repository code: %s" % r["text"][:1500], {"kind": "datarace", "report": r["text"]})
         else:
             third.append(sorted({t[0] for t in r["top"]}))
     # ---- verdicts: linearizability (TLC)
